@@ -372,6 +372,7 @@ func cmdCheck(args []string) int {
 		"limits":                        map[string]interface{}{"call_depth": eng.Defaults.MaxDepth, "loop_unwind": eng.Defaults.LoopBound, "steps_per_path": eng.Defaults.MaxSteps, "solver_timeout_ms": eng.TimeoutMs},
 		"stubs_hit":                     keys(stubs),
 		"inconclusive":                  inconclusive,
+		"uncovered":                     hgen.Uncovered[id],
 		"known_findings_hit":            knownHits,
 		"task_switches":                 switches,
 		"exhaustive":                    len(inconclusive) == 0,
